@@ -19,7 +19,7 @@ def build_light_block(f, bname):
     b = f.create_block(bname, "blocktype")
     sig = b.create_data_array("sig", "signal", data=np.array([[1.0, 2.0], [3.0, 4.0]]), unit="mV")
     sig.append_set_dimension()
-    sig.append_sampled_dimension(2.0, unit="ms")
+    sig.append_sampled_dimension(2, unit="ms", offset=3)
     s1 = b.create_source("src", "sourcetype")
     s11 = s1.create_source("src", "sourcetype")
     tag = b.create_tag("tag", "tagtype", [0.0, 2.0])
@@ -134,7 +134,7 @@ def build_mini(f):
     b = f.create_block("blk", "blocktype")
     sig = b.create_data_array("sig", "signal", data=np.array([[1.0, 2.0], [3.0, 4.0]]), unit="mV")
     sig.append_set_dimension(["a", "b"])
-    sig.append_sampled_dimension(2.0, unit="ms")
+    sig.append_sampled_dimension(2, unit="ms", offset=1)     # integer-valued: a later float must not be truncated
     s1 = b.create_source("src", "sourcetype")
     s1.create_source("src", "sourcetype")
     tag = b.create_tag("tag", "tagtype", [0.0, 2.0])
